@@ -327,6 +327,117 @@ theorem valid_implies_printWF (o : SdlPrintT.OptsT) (s full : SchemaD) (rv : Boo
   · simp [printTextWF, hdesc, hind, hT.1, hD.1, hq2, hm2, hs2, hne, hops, hu]
   · simp [printBuildWF, hT.2, hD.2, hut, hud, rootsOK, hq1, hm1, hs1, hth, hea, hres]
 
+/-! ### the residual is NECESSARY: it follows from the two predicates -/
+
+theorem argRes_of_wf (s : SchemaD) (w : Nat) (a : ArgD) (h1 : argOKT s w a = true) (h2 : argOK s a = true) : argRes s w a = true := by
+  simp only [argOKT, tyOK_eq, Bool.and_eq_true] at h1
+  simp only [argOK, Bool.and_eq_true] at h2
+  obtain ⟨⟨⟨_, _, hsh⟩, hd2⟩, hlex⟩ := h1
+  obtain ⟨⟨⟨hp, _⟩, hd1⟩, hdef⟩ := h2
+  by_cases hd : a.hasDefault = true
+  · simp only [hd, if_true] at hlex hdef
+    cases hv : valueLit s valueFuel a.default a.type with
+    | none => simp [hv] at hlex
+    | some l =>
+      simp only [hv] at hlex
+      simp [argRes, hp, hd1, hd2, hsh, hd, hdef, hv, hlex]
+  · simp only [hd, Bool.false_eq_true, if_false] at hdef
+    simp [argRes, hp, hd1, hd2, hsh, hd, hdef]
+
+theorem fieldRes_of_wf (s : SchemaD) (w : Nat) (f : FieldD) (h1 : fieldOKT s w f = true) (h2 : fieldOK s f = true) : fieldRes s w f = true := by
+  simp only [fieldOKT, tyOK_eq, Bool.and_eq_true, List.all_eq_true] at h1
+  simp only [fieldOK, Bool.and_eq_true, List.all_eq_true] at h2
+  obtain ⟨⟨⟨_, _, hsh⟩, hd2⟩, ha1⟩ := h1
+  obtain ⟨⟨⟨⟨⟨ha2, _⟩, hr⟩, hsr⟩, hdep⟩, hd1⟩ := h2
+  have ha : f.args.all (argRes s (2 * w)) = true := by
+    rw [List.all_eq_true]; exact fun a hm => argRes_of_wf s _ a (ha1 a hm) (ha2 a hm)
+  simp [fieldRes, ha, hr, hsr, hdep, hd1, hd2, hsh]
+
+theorem typeRes_of_wf (s : SchemaD) (w : Nat) (t : TypeD) (h1 : typeOKT s w t = true) (h2 : typeOK s t = true) : typeRes s w t = true := by
+  simp only [typeOK, Bool.and_eq_true, Bool.not_eq_true', List.all_eq_true] at h2
+  obtain ⟨⟨⟨⟨⟨⟨⟨⟨⟨⟨hsh, hf2⟩, hi2⟩, hv2⟩, hdup⟩, _⟩, _⟩, hdr⟩, hb⟩, hd1⟩, hnd⟩ := h2
+  simp only [typeOKT, Bool.and_eq_true] at h1
+  obtain ⟨⟨_, hd2⟩, hk1⟩ := h1
+  have hfields : t.fields.all (fieldRes s w) = true := by
+    rw [List.all_eq_true]; intro f hm
+    have : fieldOKT s w f = true := by
+      cases hk : t.kind <;> simp only [hk, Bool.and_eq_true, List.all_eq_true] at hk1 <;>
+        simp only [shapeOK, hk, Bool.and_eq_true, List.isEmpty_iff] at hsh
+      · rw [hsh.1.1.1.2] at hm; exact absurd hm (by simp)
+      · exact hk1.1.2 f hm
+      · exact hk1.2 f hm
+      · rw [hsh.1.1.2] at hm; exact absurd hm (by simp)
+      · rw [hsh.1.1.2] at hm; exact absurd hm (by simp)
+      · rw [hsh.1.1.2] at hm; exact absurd hm (by simp)
+    exact fieldRes_of_wf s w f this (hf2 f hm)
+  have hinputs : t.inputFields.all (argRes s w) = true := by
+    rw [List.all_eq_true]; intro a hm
+    have : argOKT s w a = true := by
+      cases hk : t.kind <;> simp only [hk, Bool.and_eq_true, List.all_eq_true] at hk1 <;>
+        simp only [shapeOK, hk, Bool.and_eq_true, List.isEmpty_iff] at hsh
+      · rw [hsh.2] at hm; exact absurd hm (by simp)
+      · rw [hsh.2] at hm; exact absurd hm (by simp)
+      · rw [hsh.2] at hm; exact absurd hm (by simp)
+      · rw [hsh.2] at hm; exact absurd hm (by simp)
+      · rw [hsh.2] at hm; exact absurd hm (by simp)
+      · exact hk1.2 a hm
+    exact argRes_of_wf s w a this (hi2 a hm)
+  have hvalues : t.values.all (enumValRes w) = true := by
+    rw [List.all_eq_true]; intro v hm
+    have : enumValOKT w v = true := by
+      cases hk : t.kind <;> simp only [hk, Bool.and_eq_true, List.all_eq_true] at hk1 <;>
+        simp only [shapeOK, hk, Bool.and_eq_true, List.isEmpty_iff] at hsh
+      · rw [hsh.1.2] at hm; exact absurd hm (by simp)
+      · rw [hsh.1.2] at hm; exact absurd hm (by simp)
+      · rw [hsh.1.2] at hm; exact absurd hm (by simp)
+      · rw [hsh.1.2] at hm; exact absurd hm (by simp)
+      · exact hk1.2 v hm
+      · rw [hsh.2] at hm; exact absurd hm (by simp)
+    simp only [enumValOKT, Bool.and_eq_true] at this
+    simp [enumValRes, hv2 v hm, this.1.2, this.2]
+  have hshape : shapeOK t = true := by
+    cases hk : t.kind <;> simp only [shapeOK, hk, Bool.and_eq_true, List.isEmpty_iff] at hsh ⊢ <;> exact hsh
+  simp [typeRes, hshape, hfields, hinputs, hvalues, hdup, hdr, hb, hd1, hd2, hnd]
+
+theorem directiveRes_of_wf (s : SchemaD) (w : Nat) (d : DirectiveD) (h1 : directiveOKT s w d = true) (h2 : directiveOK s d = true) :
+    directiveRes s w d = true := by
+  simp only [directiveOKT, Bool.and_eq_true, List.all_eq_true] at h1
+  simp only [directiveOK, Bool.and_eq_true, List.all_eq_true] at h2
+  obtain ⟨⟨⟨⟨_, hd2⟩, ha1⟩, hl1⟩, hl2⟩ := h1
+  obtain ⟨⟨ha2, hd1⟩, hsp⟩ := h2
+  have ha : d.args.all (argRes s w) = true := by
+    rw [List.all_eq_true]; exact fun a hm => argRes_of_wf s _ a (ha1 a hm) (ha2 a hm)
+  have hl : d.locations.all (fun l => nameOK l && Generated.ParserTables.directiveLocations.contains (T l)) = true := by
+    rw [List.all_eq_true]; intro l hm; simpa using hl2 l hm
+  simp only [directiveRes, Bool.and_eq_true]
+  exact ⟨⟨⟨⟨⟨ha, hd1⟩, hd2⟩, hsp⟩, hl1⟩, hl⟩
+
+/-- **printResidual_necessary** — every conjunct of the residual follows from `printTextWF ∧ printBuildWF`: together with
+    `valid_implies_printWF`, on valid schemas the domain of the round-trip theorems is EXACTLY the residual -/
+theorem printResidual_necessary (o : SdlPrintT.OptsT) (s : SchemaD) (h1 : printTextWF o s = true) (h2 : printBuildWF s = true) :
+    printResidual o s = true := by
+  simp only [printTextWF, Bool.and_eq_true, List.all_eq_true] at h1
+  simp only [printBuildWF, Bool.and_eq_true, Bool.not_eq_true', List.all_eq_true] at h2
+  obtain ⟨⟨⟨⟨⟨⟨⟨⟨⟨hdesc, hind⟩, ht1⟩, hd1⟩, _⟩, _⟩, _⟩, _⟩, _⟩, _⟩ := h1
+  obtain ⟨⟨⟨⟨⟨⟨⟨ht2, hd2⟩, hut⟩, hud⟩, hro⟩, hth⟩, hea⟩, hres⟩ := h2
+  have hT : s.types.all (typeRes s o.indent.length) = true := by
+    rw [List.all_eq_true]; exact fun t hm => typeRes_of_wf s _ t (ht1 t hm) (ht2 t hm)
+  have hD : s.directives.all (directiveRes s o.indent.length) = true := by
+    rw [List.all_eq_true]; exact fun d hm => directiveRes_of_wf s _ d (hd1 d hm) (hd2 d hm)
+  have hroot : ∀ r, rootIsObject s r = true → rootNotDefault r = true := by
+    intro r hr
+    cases r with
+    | none => rfl
+    | some q =>
+      simp only [rootIsObject, List.any_eq_true, Bool.and_eq_true, beq_iff_eq] at hr
+      obtain ⟨t, hm, hq, _⟩ := hr
+      have := ht2 t hm
+      simp only [typeOK, Bool.and_eq_true, Bool.not_eq_true'] at this
+      simp only [rootNotDefault, ← hq, this.2, Bool.not_false]
+  simp only [rootsOK, Bool.and_eq_true] at hro
+  have hind' : o.indent.all (fun c => c == 32 || c == 9) = true := by rw [List.all_eq_true]; exact hind
+  simp [printResidual, hdesc, hind', hT, hD, hut, hud, hth, hea, hres, hroot _ hro.1.1, hroot _ hro.1.2, hroot _ hro.2]
+
 /-- **valid_roundtrip** — the property for VALID schemas with the exclusions named: the printed text parses, the parsed
     document builds a schema equal to `s` up to the order of definitions, and re-printing it gives the same text -/
 theorem valid_roundtrip (o : SdlPrintT.OptsT) (s full : SchemaD) (rv : Bool) (hc : Covers s full)
